@@ -50,6 +50,9 @@ structure Env where
   -- resources the client holds at the server (cleared by the *answer*, which proves processing)
   claimOut : Bool := false
   openOut : Bool := false
+  /-- `allocate` was sent: the server allocates AND claims a nameplate for this side; the client
+      takes that claim over only when `allocated` reaches it (it then claims the same nameplate) -/
+  allocOut : Bool := false
   deriving DecidableEq, Repr, Inhabited, Hashable
 
 /-- monitors for C08 / C14 / C18 -/
@@ -70,6 +73,7 @@ structure Mon where
   welcomeErr : Bool := false       -- a welcome with `error` was delivered before closing began
   verdictBad : Bool := false       -- closed(v) with v not justified by the history (C08)
   resourceBad : Bool := false      -- closed notified while a claim/open is outstanding or connected
+  allocLeak : Bool := false        -- closed notified while the server still holds the claim made by `allocate`
   internal : Bool := false         -- an internal failure (NoTransition, assertion, fuel, …) happened
   deriving DecidableEq, Repr, Inhabited, Hashable
 
@@ -133,11 +137,11 @@ def sat2 (n : Nat) : Nat := if n ≥ 2 then 2 else n
 
 /-- environment bookkeeping for what the client did in this step -/
 def envObs (v : Env) : Obs → Env
-  | .tx .claim => { v with singles := v.singles ++ [.claimed], claimOut := true }
+  | .tx .claim => { v with singles := v.singles ++ [.claimed], claimOut := true, allocOut := false }
   | .tx .release => { v with singles := v.singles ++ [.released] }
   | .tx .open_ => { v with opened := true, openOut := true }
   | .tx (.close _) => { v with singles := v.singles ++ [.closed], opened := false }
-  | .tx .allocate => { v with singles := v.singles ++ [.allocated] }
+  | .tx .allocate => { v with singles := v.singles ++ [.allocated], allocOut := true }
   | .tx .list => { v with lists := sat2 (v.lists + 1) }
   | .tx (.add .pake) => { v with srvPake := true }
   | .tx (.add .version) => { v with srvVersion := true }
@@ -196,9 +200,10 @@ def monObs (before : Ctl) (after : Ctl) (v : Env) (m : Mon) : Obs → Mon
     | .closed vd =>
       { m with closedCount := sat2 (m.closedCount + 1),
                verdictBad := (m.verdictBad || !verdictOK m after vd),
+               allocLeak := (m.allocLeak || (after.t = .S_stopped && v.allocOut)),
                resourceBad := (m.resourceBad ||
                  -- through the Terminator (not Boss.error): everything must have been given back
-                 (before.t = .S_stoppingD && (v.claimOut || v.openOut || after.wsOpen ||
+                 (after.t = .S_stopped && (v.claimOut || v.openOut || after.wsOpen ||
                     after.mood.isSome && after.mood != some (match vd with
                       | .happy => Mood.happy | .lonely => .lonely | .wrongPassword => .scary
                       | .serverError => .errory | .welcomeError => .unwelcome | _ => .lonely)))) }
